@@ -61,6 +61,7 @@ HARNESSES = {
     'shared': dict(src='harness/shared.cpp', kind='mc'),
     'when_all': dict(src='harness/when_all.cpp', kind='mc'),
     'strand': dict(src='harness/strand.cpp', kind='mc'),
+    'pool': dict(src='harness/pool.cpp', kind='mc'),
 }
 
 
@@ -245,6 +246,19 @@ CHECKS = {
               mc('strand', 'mc-hb', quick=dict(P=2, S=1), thorough=dict(P=3, S=1))],
         assumptions=['FIBER instantiation; sequentially consistent executions; preemption bound as stated',
                      'happens-before between consecutive jobs is checked by the HB monitor on plain fields written by every job'],
+        technique='stateless model checking: exhaustive preemption-bounded schedule enumeration of the implementation',
+    ),
+    'C08': dict(
+        title='FairThreadPool: accepted jobs all run, rejected ones drop, Wait means done',
+        level_text='every schedule within the preemption bound (1 worker: P<=2 quick / P<=3 thorough; 2 workers: P<=1 / P<=2; '
+                   'blocking switches and wake-up choices are free and fully enumerated) of 1-2 submitter fibers x 1-2 jobs '
+                   '(optionally one job resubmitting from inside), the real worker fibers, and a fiber calling Stop / SoftStop / '
+                   'HardStop at any moment (or Stop after all submissions), followed by Wait',
+        budget=dict(quick=240, thorough=2400),
+        runs=[mc('pool', 'mc-asan', quick=dict(P=2), thorough=dict(P=3)),
+              mc('pool', 'mc-hb', quick=dict(P=2), thorough=dict(P=3))],
+        assumptions=['FIBER instantiation (yaclib_std::mutex / condition_variable / thread are the cooperative fiber versions, '
+                     'themselves checked in C18); sequentially consistent executions; preemption bound as stated'],
         technique='stateless model checking: exhaustive preemption-bounded schedule enumeration of the implementation',
     ),
     'C09': dict(
